@@ -29,6 +29,23 @@ Fourth wave (DESIGN.md 10.11), two further families for the elemental clause:
    history alphabet x all 6 interleavings of decompose-A, estimate-A,
    decompose-B, estimate-B, each estimate judged against the elemental sum of
    the molecule ITS library decomposed last.
+
+Fifth wave, the ends of the temperature axis ("all temperatures in range"):
+ * boundary temperatures 0, -0.0, 1e-300, 1e-6, 1, 1e6, 1e300 on every
+   enumerated object (estimate or group correlation) whose range contains
+   them (an object without a range contains them all): as a Python float on
+   all 16 unit strings, and in every other presentation of one number (numpy
+   float64, 0-d array, 1-element array, Python int / numpy int64 where
+   integral; all of them as one float array, the integral ones as one integer
+   array) on 3 unit strings;
+ * the same, plus the object's own grid, on objects that ARE defined at 0 K:
+   a synthetic library of 8 groups (range starting at 0 K, no range,
+   reference temperature 0 K, the one-point range [0 K, 0 K], heat capacity
+   data below which 0 K lies / with a datum at 0 K, H only, S only) - every
+   group correlation, every unit estimate (count 1, 0.5), both orders of
+   every pair of groups with counts (1, 1) and (2, -1);
+ * and on correlations made directly by the constructor: 2 classes x 3 H x
+   2 S x 3 heat capacity tables x 2 reference temperatures x 3 ranges.
 """
 import math
 
@@ -38,6 +55,7 @@ from ..domains import schemes as SD
 from ..domains import libs
 from ..domains import w3_c07 as W3
 from ..domains import w4_c07 as W4
+from ..domains import w5_c07 as W5
 
 LEVEL = 'exploration'
 # my own conversion factors to J/mol (exact definitions; per-molecule units
@@ -83,11 +101,33 @@ BOUND = {t: '16 unit strings x (all unit vectors with count 1 and 0.5, all '
             'the 5 history letters x the 6 admissible interleavings of '
             'decompose-A, estimate-A, decompose-B, estimate-B; the elemental '
             'clause of each estimate right after it is made and again after '
-            'all four operations' % (
+            'all four operations. Boundary temperatures: %s, each one that '
+            'lies inside the range of the object (no range = all of them), as '
+            'Python float x 16 unit strings and as numpy float64, 0-d array, '
+            '1-element array, Python int, numpy int64 (the last two where the '
+            'value is integral), all of them as one float array and the '
+            'integral ones as one integer array x 3 unit strings; on every '
+            'estimate and group correlation above, and - together with the '
+            "object's own grid (range ends, midpoint, reference temperature; "
+            '298.15/500/1000 K without a range) - on (a) a synthetic library of '
+            '8 groups valid at 0 K (range from 0 K / none / [0 K, 0 K], '
+            'reference temperature 298.15 K / 0 K, without heat capacity data / '
+            'with a table that starts above 0 K / with a datum at 0 K, H only, '
+            'S only): each group correlation, each unit estimate with count 1 '
+            'and 0.5, both orders of all 28 pairs with counts (1, 1) and '
+            '(2, -1) = 128 estimates; (b) the %d correlations of the '
+            'constructor product %d classes x %d H x %d S x %d heat capacity '
+            'tables x %d reference temperatures x %d ranges (those with neither '
+            'H nor S left out; combinations the constructor refuses are '
+            'counted)' % (
                 W4.H_ALL_SUBSETS[t],
                 'every single atom and the full set' if t == 'quick' else
                 'every single atom, every pair, every all-but-one set and the full set',
-                len(W4.H_MODES[t]), ', '.join(W4.H_MODES[t]))
+                len(W4.H_MODES[t]), ', '.join(W4.H_MODES[t]),
+                ', '.join(repr(v) for _, v in W5.BOUNDARY_T),
+                len(W5.ctor_specs()), len(W5.CTOR_CLASSES), len(W5.CTOR_H),
+                len(W5.CTOR_S), len(W5.CTOR_CP), len(W5.CTOR_TREF),
+                len(W5.CTOR_RANGE))
          for t in ('quick', 'thorough')}
 RULE = ('for each (object, temperature, unit string) the four dimensional '
         'getters are compared with the non-dimensional ones times the tabulated '
@@ -109,10 +149,17 @@ RULE = ('for each (object, temperature, unit string) the four dimensional '
         'library objects each estimate is judged against the molecule that '
         'the library it was made from decomposed last, whatever the other '
         'object did in between.  '
+        'At a boundary temperature the comparisons are the same (dimensional '
+        'getter against the non-dimensional one on the very same argument '
+        'times R (and T), G against H - T*S, units against my own factors); '
+        'where the reference product itself is not a finite number (H/RT '
+        'diverges at 0 K when there is heat capacity data) the dimensional '
+        'value must not be finite either.  '
         'Non-trivial = a unit other than J/mol, an elemental-reference '
         'evaluation, a temperature not given as a Python float, an S_elements '
         'value other than None/False/True, a history step, a hydrogen '
-        'presentation or an operation on one of two library objects')
+        'presentation, an operation on one of two library objects or a '
+        'boundary temperature')
 ASSUMPTIONS = ['pmutt.constants.R and S_elements are the "tabulated" values',
                'conversion factors between unit strings are written from the '
                'SI definitions; tolerance 1e-6 because the table is rounded '
@@ -130,7 +177,17 @@ ASSUMPTIONS = ['pmutt.constants.R and S_elements are the "tabulated" values',
                'all cases of one two-library shard run on the same two '
                'objects (loading is the expensive step); the witness carries '
                'every case those objects have seen, and a replay obtains its '
-               'own two objects by the same two Load calls']
+               'own two objects by the same two Load calls',
+               '"in range" for a boundary temperature is decided from the '
+               'declared ranges (for an estimate: the intersection of the '
+               'ranges of its groups, computed by the harness; none declared '
+               '= every temperature); a temperature outside the declared range '
+               'is not judged here even where the getters answer with a '
+               'warning (C06)',
+               '1e-300 and 1e300 are the ends of the alphabet because there '
+               '(H/RT)*T*R is a normal floating-point number in every unit '
+               'whichever way the product is associated; nearer to the '
+               'underflow / overflow limits 1e-12 cannot be demanded']
 MANIFEST = dict(
     technique='exhaustive enumeration of unit strings x estimates x '
               'temperatures vs own conversion table and atom count',
@@ -151,7 +208,11 @@ MANIFEST = dict(
          '4 (thorough 5) ways of writing that down, as object and as string), '
          'and for two library objects from two Load calls used side by side '
          '(3 libraries x 3 ways of loading x 25 pairs of letters x 6 '
-         'interleavings).',
+         'interleavings).  All of the first part also at the boundary '
+         'temperatures 0, -0.0, 1e-300, 1e-6, 1, 1e6, 1e300 (as float and in '
+         'every other presentation of one number) wherever they are in range, '
+         'including a library of groups valid at 0 K and 180 correlations '
+         'built by the constructor.',
     note='The elemental clause is checked for the molecule decomposed '
          'immediately before the estimate, also when that molecule or others '
          'were decomposed on the same library object earlier (histories of '
@@ -620,6 +681,163 @@ def check_elements(R, name, lib, smi, as_object=False):
                   elemental_SoR=want_sub), limit=1)
 
 
+def agree(a, b, tol, scale=None):
+    """`same`, for references that need not be finite: same shape; where the
+    reference b is finite, a is within tol (relative to max(|a|, |b|) or to
+    `scale`); where b is not finite (inf, nan), a is not finite either.
+    -> (verdict, reference has a non-finite entry)"""
+    import numpy as np
+    try:
+        if np.shape(a) != np.shape(b):
+            return False, False
+        x = np.asarray(a, dtype=float)
+        y = np.asarray(b, dtype=float)
+        fin = np.isfinite(y)
+        if not np.all(np.isfinite(x) == fin):
+            return False, not bool(np.all(fin))
+        with np.errstate(all='ignore'):
+            if scale is None:
+                m = np.maximum(np.abs(x), np.abs(y))
+            else:
+                m = np.abs(np.asarray(scale, dtype=float))
+                m = np.where(np.isfinite(m), m, 0.0)
+            d = np.where(fin, np.abs(x - y), 0.0)
+            lim = np.where(fin, tol * np.maximum(m, 1e-300), 0.0)
+        return bool(np.all(d <= lim)), not bool(np.all(fin))
+    except Exception:      # noqa
+        return False, False
+
+
+def check_boundary(R, what, obj, cases, wit):
+    """`cases` = [(label, T, unit strings)] (W5.boundary_cases): T is a
+    boundary temperature inside the range of `obj`, in some presentation.
+    The comparisons of check_object / check_presentations: every dimensional
+    getter against the non-dimensional one on the same argument times R (and
+    T), G against H - T*S, units against each other through my own factors."""
+    import numpy as np
+    import pmutt.constants as c
+    for label, T, units in cases:
+        nd = {}
+        for p in ('get_HoRT', 'get_SoR', 'get_CpoR'):
+            nd[p] = E.ev(getattr(obj, p), T)
+        first = {}
+        for u in units:
+            R.evals += 1
+            R.nontrivial += 1
+            uk = u + '/K'
+            problems = []
+            nonfinite = False
+            h = E.ev(obj.get_H, T, u)
+            s = E.ev(obj.get_S, T, uk)
+            cp = E.ev(obj.get_Cp, T, uk)
+            g = E.ev(obj.get_G, T, u)
+            for name, dim, ndv, factor in (
+                    ('H', h, nd['get_HoRT'], T * c.R(uk)),
+                    ('S', s, nd['get_SoR'], c.R(uk)),
+                    ('Cp', cp, nd['get_CpoR'], c.R(uk))):
+                if ndv[0] != 'ok':
+                    if dim[0] == 'ok':
+                        problems.append('%s(%s) returned %r although the non-'
+                                        'dimensional value raises %s' % (name, u, dim[1], ndv[1]))
+                    continue
+                if dim[0] != 'ok':
+                    problems.append('%s(T, %r) raised %s although the non-dimensional '
+                                    'getter returns %r' % (name, u, dim[1], ndv[1]))
+                    continue
+                with np.errstate(all='ignore'):
+                    want = E.ev(lambda: ndv[1] * factor)
+                if want[0] != 'ok':
+                    R.outcomes['T-boundary:product-undefined'] += 1
+                    continue
+                ok, nf = agree(dim[1], want[1], 1e-12)
+                nonfinite = nonfinite or nf
+                if not ok:
+                    problems.append('%s(T, %r) = %r, expected %r' % (
+                        name, u, dim[1], want[1]))
+            if h[0] == 'ok' and s[0] == 'ok':
+                with np.errstate(all='ignore'):
+                    hs = E.ev(lambda: h[1] - T * s[1])
+                    sc = E.ev(lambda: np.maximum(np.abs(h[1]), np.abs(T * s[1])))
+                if g[0] != 'ok':
+                    problems.append('G(T, %r) raised %s' % (u, g[1]))
+                elif hs[0] == 'ok' and sc[0] == 'ok':
+                    ok, nf = agree(g[1], hs[1], 1e-9, scale=sc[1])
+                    nonfinite = nonfinite or nf
+                    if not ok:
+                        problems.append('G(T, %r) = %r, H - T*S = %r' % (u, g[1], hs[1]))
+            # units against each other, through my own factors to J/mol
+            for name, dim in (('H', h), ('S', s)):
+                if dim[0] != 'ok':
+                    continue
+                with np.errstate(all='ignore'):
+                    vj = E.ev(lambda: dim[1] * J_PER[u])
+                if vj[0] != 'ok':
+                    continue
+                if name not in first:
+                    first[name] = vj[1]
+                else:
+                    ok, nf = agree(vj[1], first[name], 1e-6)
+                    if not ok:
+                        problems.append('%s in %r is %r J/mol%s, in the first unit %r' % (
+                            name, u, vj[1], '/K' if name == 'S' else '', first[name]))
+            R.outcomes['T-boundary:%s%s' % (
+                'ok' if not problems else 'bad',
+                ':reference-not-finite' if nonfinite else '')] += 1
+            for pr in problems[:2]:
+                R.violation('dimensional-T-boundary:%s' % pr.split('(')[0].split(' ')[0],
+                            '%s at T=%r (%s): %s' % (what, T, label, pr), wit)
+
+
+def run_zero_library(R, i, n, only=None):
+    """The library of groups valid at 0 K (W5.ZERO_LIB): every estimate of
+    W5.zero_mappings and every group correlation, at the boundary temperatures
+    inside its range and on its own grid."""
+    lib = W5.zero_library()
+    us = units_h()
+    for num, (tag, mapping) in enumerate(W5.zero_mappings(lib)):
+        if num % n != i and only is None:
+            continue
+        m2 = [[str(g), c] for g, c in mapping]
+        if only is not None and m2 != only:
+            continue
+        wit = dict(kind='zlib', mapping=m2)
+        r = E.ev(lib.Estimate, dict((str(g), c) for g, c in mapping), 'thermochem')
+        if r[0] != 'ok':
+            R.outcomes['zero-library:no-estimate'] += 1
+            continue
+        rng = E.common_range(lib, mapping)
+        if rng is not None and rng[0] > rng[1]:
+            R.outcomes['zero-library:empty-common-range'] += 1
+            continue
+        trefs = [float(lib[g]['thermochem'].T_ref) for g, _ in mapping]
+        grid = sorted(set(t for tr in trefs for t in W5.own_grid(rng, tr)))
+        check_boundary(R, 'zero-K library estimate %r' % (m2,), r[1],
+                       W5.boundary_cases(rng, us, W3.UNITS_T, extra=grid), wit)
+        if tag == 'unit' and mapping[0][1] == 1:
+            k = lib[mapping[0][0]]['thermochem']
+            check_boundary(R, 'zero-K library [%s]' % (mapping[0][0],), k,
+                           W5.boundary_cases(rng, us, W3.UNITS_T, extra=grid), wit)
+        R.sample(dict(library='zero-K (synthetic)', mapping=m2, common_range=rng,
+                      grid=grid, boundary_temperatures=[
+                          t for _, t in W5.BOUNDARY_T if W5.in_range(t, rng)]), limit=1)
+
+
+def check_constructed(R, spec):
+    """One correlation made by the constructor (W5.build)."""
+    wit = dict(kind='ctor', spec=spec)
+    k = E.ev(W5.build, spec)
+    if k[0] != 'ok':
+        R.outcomes['constructor:refuses-%s' % k[1]] += 1
+        return
+    rng = spec['range']
+    check_boundary(R, '%s(ND_H_ref=%r, ND_S_ref=%r, ND_Cp_data=%r, T_ref=%r, range=%r)' % (
+        spec['cls'], spec['H'], spec['S'], dict((t, v) for t, v in spec['Cp']),
+        spec['T_ref'], rng), k[1],
+        W5.boundary_cases(rng, units_h(), W3.UNITS_T,
+                          extra=W5.own_grid(rng, spec['T_ref'])), wit)
+    R.sample(dict(constructed=spec), limit=1)
+
+
 def run_estimates(R, name, i, n, only=None):
     lib = E.fresh(name)
     shown = []
@@ -640,8 +858,16 @@ def run_estimates(R, name, i, n, only=None):
                      dict(kind='est', lib=name, mapping=m2))
         check_presentations(R, '%s estimate %r' % (name, m2), r[1], temps,
                             dict(kind='est', lib=name, mapping=m2))
+        # the boundary temperatures that lie inside the common range
+        bcases = W5.boundary_cases(E.common_range(lib, mapping), units_h(), W3.UNITS_T)
+        R.outcomes['T-boundary:object-with-%s-boundary-temperature-in-range' % (
+            'a' if bcases else 'no')] += 1
+        check_boundary(R, '%s estimate %r' % (name, m2), r[1], bcases,
+                       dict(kind='est', lib=name, mapping=m2))
         if tag == 'unit' and mapping[0][1] == 1:
             k = lib[mapping[0][0]]['thermochem']
+            check_boundary(R, '%s[%s]' % (name, mapping[0][0]), k, bcases,
+                           dict(kind='est', lib=name, mapping=m2))
             check_object(R, '%s[%s]' % (name, mapping[0][0]), k, temps,
                          dict(kind='est', lib=name, mapping=m2))
             check_presentations(R, '%s[%s]' % (name, mapping[0][0]), k, temps,
@@ -678,6 +904,11 @@ def shards(tier, seed):
     for name in ELEM_LIBS:
         for route in W4.PAIR_ROUTES:
             out.append(('pair', name, route))
+    # boundary temperatures on objects defined at 0 K (both tiers alike)
+    for i in range(4):
+        out.append(('zlib', i, 4))
+    for i in range(4):
+        out.append(('ctor', i, 4))
     return out
 
 
@@ -713,6 +944,11 @@ def run_shard(shard, tier):
     elif shard[0] == 'pair':
         run_pairs(R, shard[1], shard[2],
                   list(W4.pair_cases(W3.HIST_LETTERS[shard[1]])))
+    elif shard[0] == 'zlib':
+        run_zero_library(R, shard[1], shard[2])
+    elif shard[0] == 'ctor':
+        for spec in W5.ctor_specs()[shard[1]::shard[2]]:
+            check_constructed(R, spec)
     else:
         lib = E.fresh(shard[1])
         mols = SD.molecules_for(shard[1], 'quick')
@@ -740,6 +976,10 @@ def replay(w):
         run_pairs(R, w['lib'], w['route'], [list(x) for x in w['cases']])
     elif w['kind'] == 'hist':
         run_history(R, w['lib'], E.fresh(w['lib']), [list(x) for x in w['history']])
+    elif w['kind'] == 'zlib':
+        run_zero_library(R, 0, 1, only=[list(x) for x in w['mapping']])
+    elif w['kind'] == 'ctor':
+        check_constructed(R, w['spec'])
     else:
         run_estimates(R, w['lib'], 0, 1, only=w['mapping'])
     return dict(violates=bool(R.violations),
